@@ -78,11 +78,12 @@ DESC = [
     (r"^C28/parse-error/groups are not allowed in proto_$", "a container or list named 'group' becomes the package 'group' under -package_hierarchy, and a field type that starts with the token 'group' (group.UpTime) is parsed as a proto2 group: the file is not valid proto3", "protogen; witness: random schema 1-18 /link/interface/group/up-time, options hierarchy (thorough tier)"),
     (r"^C28/parse-error/", "yang_name option strings are not escaped (quotes, backslashes)", "protogen"),
     (r"^C28/json-name-conflict/", "field names that differ only by '_'/case have the same proto3 JSON name", "protogen"),
-    (r"^C28/duplicate-symbol/", "message/enum/field/package symbols collide in one scope", "protogen"),
+    (r"^C28/duplicate-symbol/", "message/enum/enum-value/field/oneof/package symbols collide in one scope: protogen keeps no common name space per scope, so names that differ only in case or in - _ . meet; which two kinds meet depends on the concrete names only (all pairs of the family are listed)", "protogen"),
     (r"^C28/unresolved-import/", "an import refers to a file that is not generated (empty name / enums.proto)", "protogen"),
     (r"^C28/unresolved-type/type-reference:shadowed-by-inner-scope$", "a relative type reference (interface.Group) whose first component also names an inner package resolves to that package, where the type does not exist", "protogen type references under -package_hierarchy; witness: random schema 1-18 /link/interface/group (thorough tier)"),
     (r"^C28/unresolved-type/", "a referenced type or option is defined in a file that is not imported / nowhere", "protogen"),
     # ---- C29
+    (r"^C29/enum-key-value-unusable/yang-value-minus-one-is-go-zero$", "a YANG enumeration value -1 is generated as Go value 0 (value+1), which ygot treats as unset: used as a list key (path structs, KeyValueAsString) it resolves to an empty key string", "gogen enum numbering; witness: random OpenConfig-style schema, seed 6, enum 'foo-bar' { value -1; } as list key"),
     (r"^C29/resolve-error/top-level-node-named-id-hides-root-Id-method$", "a top-level node named 'id' generates DevicePath.Id(...), hiding the root's own Id() method; ResolvePath then fails for every path of the schema", "ypathgen; witness: random OpenConfig-style schema with top-level list 'id'"),
     # ---- C30
     (r"^C30/dangling-accepted/.*:predicate-value-is-the-string-\*$", "a leafref key predicate [k=current()/../x] whose x holds the string \"*\" is evaluated as a wildcard key: every entry matches, so a reference that dangles is accepted", "ytypes/leafref.go leafRefToGNMIPath + GetNode wildcards; witness: /scalars/sel-a = \"*\", lref-pred (thorough tier)"),
